@@ -215,9 +215,11 @@ def evaluate_group(case, acc=None):
         req = list(case['persona']['forms'])
         if v['form_order'] is not None and len(req) > 1:
             core.Rng(core.h64('fo', v['form_order'])).shuffle(req)
-        runs.append((v, execute(case, file_names=names, sched=tuple(v['sched']), prompt=prompt, refuse_at=refuse,
-                                layout=v['layout'], requested=req)))
+        runs.append((v, c05.guarded(lambda: execute(case, file_names=names, sched=tuple(v['sched']), prompt=prompt,
+                                                    refuse_at=refuse, layout=v['layout'], requested=req), base_run.supplied)))
     for tag, run in runs:
+        if run.outcome == 'no-termination':
+            continue
         r1 = shipped.model_for(case['persona'], run)
         for f in shipped.judge(case['persona'], run, r1):
             if f['oracle'] in ('C05.model', 'P1'):
@@ -226,7 +228,9 @@ def evaluate_group(case, acc=None):
             fs.append(F('C05', 'C05.abort', 'abort-ness', f'variant {tag}: run {run.outcome} {run.exc}, model {r1.verdict} {r1.summary()["aborts"]}'))
     by_inputs = {}
     for tag, run in runs:
-        by_inputs.setdefault(tuple(sorted((k, v.strip()) for k, v in run.input_texts.items())), []).append((tag, run))
+        key = tuple(sorted((k, v.strip()) for k, v in run.input_texts.items())) if run.outcome != 'no-termination' \
+            else tuple(sorted((k, v.strip()) for k, v in base_run.input_texts.items()))
+        by_inputs.setdefault(key, []).append((tag, run))
     for sup, grp in by_inputs.items():
         o0 = c05.observable(grp[0][1])
         for tag, run in grp[1:]:
